@@ -135,6 +135,8 @@ def compile_code(
 
     main_module = src[""] if isinstance(src, dict) else src
     if "pytrapic:" in main_module:
+        # directives apply to this compilation only, not to the caller's object
+        options = CompileOptions(**vars(options))
         for line in main_module.splitlines():
             if "pytrapic:" not in line:
                 continue
